@@ -1,9 +1,130 @@
-//! C17: not built yet.
+//! C17: reachability-based checkers CWE367 (TOCTOU) and CWE243 (chroot) follow their path
+//! specification.  One case = (random program, checker, configuration) -> warnings | panic of the
+//! real `check_cwe`.  TLC computes the expected sites from spec/Checkers.tla + spec/Cfg.tla.
+use crate::irenc;
 use crate::out::Out;
-use serde_json::Value;
+use crate::props::c16::PlainHooks;
+use crate::rng::Rng;
+use crate::walkgen::*;
+use crate::walkrun::{run_checker, warning, Needs};
+use cwe_checker_lib::intermediate_representation::*;
+use serde_json::{json, Value};
 
-pub fn gen(_out: &mut Out, _sub: &str) {}
 
-pub fn replay(_run: &[Value], _sub: &str) -> Vec<Value> {
-    Vec::new()
+fn knobs() -> Knobs {
+    Knobs { subs: (1, 3), blocks: (2, 6), w_ext_call: 55, w_int_call: 12, w_branch: 10, w_cbranch: 14, w_return: 8, w_callind: 3,
+            p_no_ret: 12, p_forward: 55, ..Knobs::default() }
+}
+
+/// the configuration handed to the real checker for an event configuration
+fn real_config(checker: &str, config: &Value) -> Value {
+    match checker {
+        "CWE367" => json!({"pairs": config["pairs"]}),
+        _ => json!({"priviledge_dropping_functions": config["symbols"]}),
+    }
+}
+
+/// mechanical feature tag used only to key the known finding: a chroot call without return site
+/// in a program that imports chdir
+fn chroot_without_return_site(project: &Project) -> bool {
+    let p = &project.program.term;
+    let chroot: Vec<&Tid> = p.extern_symbols.values().filter(|e| e.name == "chroot").map(|e| &e.tid).collect();
+    let chdir = p.extern_symbols.values().any(|e| e.name == "chdir");
+    chdir && p.subs.values().flat_map(|s| s.term.blocks.iter()).flat_map(|b| b.term.jmps.iter()).any(|j| match &j.term {
+        Jmp::Call { target, return_: None } => chroot.contains(&target),
+        _ => false,
+    })
+}
+
+pub fn exec(checker: &str, project: &Project, config: &Value) -> Value {
+    let r = run_checker(project, checker, &real_config(checker, config), Needs::Nothing);
+    let (warnings, panic) = match r {
+        Ok(w) => (w.iter().map(warning).collect::<Vec<_>>(), String::new()),
+        Err(p) => (vec![], p),
+    };
+    json!({"ev": "c17", "checker": checker, "config": config, "warnings": warnings, "panic": panic,
+           "chroot_noret": checker == "CWE243" && chroot_without_return_site(project)})
+}
+
+/// extern table biased towards the symbols the two checkers look at
+fn externs_c17(r: &mut Rng) -> Vec<ExternSymbol> {
+    let mut v = Vec::new();
+    for (name, pct) in [("access", 90u64), ("open", 85), ("stat", 40), ("chroot", 85), ("chdir", 65), ("setuid", 50), ("setgid", 35), ("setresuid", 25), ("puts", 60), ("fopen", 30)] {
+        if r.chance(pct, 100) {
+            let np = r.below(3) as usize;
+            v.push(mk_extern(name, ["RDI", "RSI", "RDX"][..np].iter().map(|x| reg_arg(x)).collect(), vec![reg_arg("RAX")], false, None));
+        }
+    }
+    if r.chance(1, 3) {
+        v.push(mk_extern("exit", vec![reg_arg("RDI")], vec![], true, None));
+    }
+    v
+}
+
+pub fn gen(out: &mut Out, _sub: &str) {
+    let mut rng = Rng::new(out.seed ^ 0xC17);
+    let n = out.size(500, 12_000);
+    for _ in 0..n {
+        let mut r = rng.fork();
+        let externs = externs_c17(&mut r);
+        let mut k = knobs();
+        let mut weights: &'static [(&'static str, u64)] = &[("access", 14), ("open", 12), ("chroot", 10), ("chdir", 7), ("setuid", 4), ("stat", 4)];
+        match r.below(4) {
+            0 => {
+                k.subs = (1, 1);
+                k.blocks = (3, 8);
+            }
+            1 | 2 => {
+                weights = &[("access", 20), ("open", 20), ("chroot", 12), ("chdir", 12), ("setuid", 3)];
+                // straight-line chains: source call, internal calls (to returning and non-returning
+                // functions), further source calls and the sink call follow each other
+                k.p_chain = 75;
+                k.w_int_call = 26;
+                k.w_ext_call = 60;
+                k.w_cbranch = 8;
+                k.w_branch = 5;
+                k.w_return = 16;
+                k.subs = (2, 3);
+                k.blocks = (2, 7);
+            }
+            _ => {}
+        }
+        let program = gen_program(&mut r, &k, &externs, &mut PlainHooks(weights));
+        let project = mk_project(program, vec![cconv_std()]);
+        let pj = irenc::project(&project);
+        // CWE367: the default pair plus random further pairs (check != use, names may be absent)
+        let mut pairs: Vec<Vec<String>> = Vec::new();
+        if r.chance(5, 6) {
+            pairs.push(vec!["access".to_string(), "open".to_string()]);
+        }
+        for _ in 0..r.below(3) {
+            let a = pick_str(&mut r, &["access", "stat", "open", "puts", "lstat"]).to_string();
+            let b = pick_str(&mut r, &["open", "fopen", "access", "chdir", "unlink"]).to_string();
+            if a != b && !pairs.iter().any(|p| p[0] == a && p[1] == b) {
+                pairs.push(vec![a, b]);
+            }
+        }
+        let c367 = json!({"symbols": [], "pairs": pairs});
+        // CWE243: privilege-dropping functions
+        let mut privs: Vec<String> = Vec::new();
+        for name in ["setuid", "setgid", "setresuid", "seteuid"] {
+            if r.chance(1, 2) {
+                privs.push(name.to_string());
+            }
+        }
+        let c243 = json!({"symbols": privs, "pairs": []});
+        let mut evs: Vec<Value> = vec![json!({"ev": "reset", "project": pj})];
+        evs.extend([("CWE367", c367), ("CWE243", c243)].iter().map(|(checker, cfg)| exec(checker, &project, cfg)));
+        // non-trivial: some warning is reported although the program has at least two calls to watched symbols
+        let nontrivial = evs[1..].iter().any(|ev| ev["warnings"].as_array().map(|w| !w.is_empty()).unwrap_or(false));
+        out.emit(evs, nontrivial);
+    }
+}
+
+/// A case is `[reset{project}, CWE367 event, CWE243 event]`; re-executes the checker events on the real code.
+pub fn replay(run: &[Value], _sub: &str) -> Vec<Value> {
+    let project = dec::project(&run[0]["project"]);
+    let mut evs = vec![json!({"ev": "reset", "project": irenc::project(&project)})];
+    evs.extend(run[1..].iter().map(|e| exec(e["checker"].as_str().unwrap(), &project, &e["config"])));
+    evs
 }
